@@ -27,6 +27,10 @@ pub enum Op {
     Declutter,
     CleanShutdownRestart,
     KillRestart,
+    /// clean shutdown, then the saved key map is cut short before the start (a disk that filled up, a damaged copy of the
+    /// data directory - not something a kill produces, see DESIGN 7.6 round 11): the node may refuse to start; if it
+    /// starts, the usual alternative holds (log discarded, or every record decodes)
+    DamagedKeyMapRestart,
 }
 
 const DBN: [&str; 4] = ["da", "db", "dc", "dd"];
@@ -152,6 +156,9 @@ fn start_node(dir: &str) -> Node {
     n
 }
 
+pub static REFUSED_DAMAGED: std::sync::atomic::AtomicU64 = std::sync::atomic::AtomicU64::new(0);
+pub static STARTED_DAMAGED: std::sync::atomic::AtomicU64 = std::sync::atomic::AtomicU64::new(0);
+
 pub struct Stats {
     pub histories: u64,
     pub restarts: u64,
@@ -214,28 +221,46 @@ fn run_history(ops: &[Op], dir: &str, v: &Verdicts, st: &Mutex<Stats>) {
                 trace.push(json!(["declutter"]));
                 shape.push("declutter");
             }
-            Op::CleanShutdownRestart | Op::KillRestart => {
+            Op::CleanShutdownRestart | Op::KillRestart | Op::DamagedKeyMapRestart => {
                 n.pump();
                 for m in &n.repl_log[consumed..] {
                     record_intent(m, &mut intent);
                 }
-                if let Op::CleanShutdownRestart = op {
+                if let Op::CleanShutdownRestart | Op::DamagedKeyMapRestart = op {
                     n.safe_shutdown();
                     persisted.append(&mut pending_snap);
-                    shape.push("clean-restart");
+                    shape.push(if let Op::DamagedKeyMapRestart = op { "clean-stop-then-damaged-key-map" } else { "clean-restart" });
                 } else {
                     pending_snap.clear();
                     shape.push("kill-restart");
                 }
                 node = None;
+                let mut damaged = false;
+                if let Op::DamagedKeyMapRestart = op {
+                    let f = format!("{}/keys-nun.keys", dir);
+                    if let Ok(bytes) = std::fs::read(&f) {
+                        if bytes.len() >= 12 {
+                            let _ = std::fs::write(&f, &bytes[..bytes.len() / 2 + 1]);
+                            damaged = true;
+                        }
+                    }
+                }
                 let res = std::panic::catch_unwind(|| start_node(dir));
                 let n2 = match res {
                     Ok(n2) => n2,
+                    Err(_) if damaged => {
+                        // refusing to start on a key map that cannot be read is the loud outcome
+                        REFUSED_DAMAGED.fetch_add(1, std::sync::atomic::Ordering::Relaxed);
+                        break 'h;
+                    }
                     Err(e) => {
                         v.report(json!({"check": "oplog-ids", "problem": "restart-fails", "after": shape.last().unwrap()}), json!({"ops": format!("{:?}", ops), "trace": trace, "msg": panic_msg(&e)}));
                         break 'h;
                     }
                 };
+                if damaged {
+                    STARTED_DAMAGED.fetch_add(1, std::sync::atomic::Ordering::Relaxed);
+                }
                 consumed = 0;
                 restarts += 1;
                 trace.push(json!([format!("{:?}", op), format!("oplog valid after restart: {}", n2.dbs.is_oplog_valid.load(std::sync::atomic::Ordering::SeqCst))]));
@@ -302,6 +327,7 @@ fn random_op(r: &mut Rng) -> Op {
         }
         15..=16 => Op::Declutter,
         17 => Op::CleanShutdownRestart,
+        18 if r.chance(1, 3) => Op::DamagedKeyMapRestart,
         _ => Op::KillRestart,
     }
 }
@@ -614,6 +640,7 @@ pub fn run(tier: &str) -> i32 {
     ev.set("restarts_that_found_the_log_discarded_or_empty", json!(s.logs_discarded));
     ev.set("kill_points_judged", json!(judged));
     ev.set("child_with_a_log_that_rotates_after_two_records", json!({"histories": small.0, "restarts_checked": small.1, "records_decoded_after_restart": small.2}));
+    ev.set("restarts_on_a_key_map_cut_short", json!({"start_refused": REFUSED_DAMAGED.load(std::sync::atomic::Ordering::Relaxed), "started_and_judged": STARTED_DAMAGED.load(std::sync::atomic::Ordering::Relaxed)}));
     ev.set("known_findings_seen", json!(v.known_seen()));
     // Engine R: the start-up sequence of src/bin/main.rs itself, across two restarts of a real process
     let real = crate::realparts::c16_real(&v, if thorough { 64 } else { 8 }, seed());
